@@ -15,7 +15,11 @@ TB = [
 ]
 AS = ["PARTIAL by nature: the frame theorem is relative to the alias table; the monitor does the detecting",
       "read-only calls are executed twice in the adapter; float results compared bit-exactly (same process, same inputs)"]
-RULE = ("flavours sigs/views/inplace: histories of 6..28 ops over 2-4 sketches, 2-6 signature objects and up to ~8 collection views "
+RULE = ("flavour disk: collections LOADED from disk (SBT from .sbt.zip / .sbt.json with node cache sizes unbounded / 1 / 2, SqliteIndex, "
+        "LCA_Database from JSON, LCA_SqliteDatabase) next to in-memory ones, interleaved selects (copying and in-place), searches / prefetch / gather "
+        "run twice, and SAVES as read-only ops on every kind (SBT.save zip + directory storage, LinearIndex.save, SaveSignaturesToLocation to "
+        "zip/.sig/dir/sqldb, LCA_Database.save json+sql, manifest.write_to_filename csv+sql; the collection must answer the same before and twice after); "
+        "flavours sigs/views/inplace: histories of 6..28 ops over 2-4 sketches, 2-6 signature objects and up to ~8 collection views "
         "(SourmashSignature(mh,name,filename), .minhash getter/setter, name/filename setters, add_sequence/add_protein incl. invalid k-mers, "
         "to_mutable/to_frozen/into_frozen/copy/pickle/update()/__setstate__, GatherDatabases.__init__, Index.counter_gather; LinearIndex, LazyLinearIndex, "
         "ZipFileLinearIndex with/without manifest, MultiIndex, StandaloneManifestIndex, SBT, LCA_Database: select with 1-3 criteria incl. None values, "
@@ -27,5 +31,5 @@ RULE = ("flavours sigs/views/inplace: histories of 6..28 ops over 2-4 sketches, 
         "dumped; non-trivial = >= 4 successful ops and at least one read-only call or frozen object; distinct = distinct op lists")
 
 if __name__ == "__main__":
-    streamlib.run_property("C15", own, ["frozen", "readonly", "alias", "sigs", "views", "inplace"], own.oracle, 900, 24000, TB, AS, RULE,
+    streamlib.run_property("C15", own, ["frozen", "readonly", "alias", "sigs", "views", "inplace", "disk"], own.oracle, 1050, 28000, TB, AS, RULE,
                            nontrivial=own.nontrivial)
